@@ -5,7 +5,7 @@ from vf.props import c12
 from vf import stage_src
 
 LEVEL = "model_checking"
-TECHNIQUE = "CBMC bounded symbolic execution of parser components cut mechanically out of the generated parsers / lexer sources: bison fold actions with arbitrary semantic values (no undefined behaviour, every failure reported once), re_lexer escape handling on an arbitrary character stream"
+TECHNIQUE = "CBMC bounded symbolic execution of parser components cut mechanically out of the generated parsers / lexer sources: bison fold actions with arbitrary semantic values (no undefined behaviour, every failure reported once), re_lexer escape handling on an arbitrary character stream, loop-variable ownership across two consecutive loops (extracted for_variables / for_iteration actions + the prologue's loop_vars_cleanup)"
 ASSUMPTIONS = ["no whole-parser run: LALR/flex automata on symbolic text are intractable (DESIGN P10); the claim is per action / per lexer helper with arbitrary semantic values or input characters",
                "token-level behaviour, error-recovery productions, include handling and termination for whole inputs are outside"]
 LEVEL_TEXT = "Bounded model checking per grammar action and lexer helper: no action can trap or leave a failure unreported for any semantic values."
